@@ -174,6 +174,17 @@ turned out to be the check's fault; none is listed as a known finding.
   with failing cases of ~100 s a seeded tree hit the 20 min deadline and was
   classified inconclusive. Real-time units now fail fast (9.1).
 
+* **C11 `first-contact`, one run of 15 minutes that ended inconclusive
+  (exit 2) on the unchanged tree under load** (round 5, machine shared with
+  twelve seeding agents and a sweep). The goroutine dump showed the sender
+  inside the library's reconnect loop waiting for a handshake answer, the
+  receiver's accept actor idle for 14 minutes - and no goroutine of the
+  harness's proxy: its accept loop had returned on an `Accept` error while
+  the listening socket stayed open, so the kernel kept completing connections
+  that nobody served. Machinery, not a finding: the loop now retries after
+  5 ms unless the proxy was closed (`AcceptErrors` is reported in the
+  statistics). The cause of the one `Accept` error was not established.
+
 ### 9.4 C18 in detail
 
 `csim` runs 2-7 real `NodeActor`s; every inter-node message goes through
@@ -260,6 +271,7 @@ its history (checked by replaying both histories with either fix alone).
 | C03-9 | the stash of an actor across a restart (the white-box stash clause skipped every restarted actor) | restarted actors that were spawned once and are running at the end: stash length >= stashed-and-never-returned minus dead-lettered (`C03/lost\|stash-dropped\|restarted`); a first version counted a message twice when two instances had stashed it (false alarm at 4 of 4 quick seeds on the unchanged tree, corrected before it was committed: ids are counted once) |
 | C04-11 | the content of a PipeResult forwarded by a PipeTo that raced the completion (only the count was checked in the real-clock unit) | a PipeResult with neither reply nor error is a violation in C04's real-clock unit and in C10's operation 17 |
 | C13-9 | a typed-nil `*actor.Ref` in an `ActorRef` field (the writer guards against it by reflection; `arb` produced nil and valid references only) | the encode unit (`NilPointers`) puts a nil `*actor.Ref` into *exported* reference fields in one draw of six; `arb.Equal` treats it as nil. A first version also filled unexported fields and reported `singletonForwardedMessage.sender` on the unchanged tree: that field is only ever filled from `ctx.Sender()`, an implicit precondition every caller respects - a false alarm of the generator, corrected before it was committed |
+| C10-9 as a C06 change (a round-5 agent working on C06 re-invented it: `removeChild` compares references with `Equals`, so the late OnKilled of a predecessor removes the successor registered under the same name from its parent's child table; the stored patch is identical, C06's quick check missed it because paths with several lives are excluded from the kill unit's oracle) | a successor that is registered while its predecessor's OnKilled is still queued at the parent, followed by a kill of the parent | unit `replace`: the supervisor replaces its named child inside one handler (kill, wait in virtual time until `FindActor` fails, spawn the same name), then the supervisor or its parent is killed; nothing at or below the killed actor may stay registered, every life terminated, one OnKilled per life at the supervisor, child before supervisor (`C06/subtree-terminated\|replaced-child`). A first version did not advance virtual time while the handler polled and reported the unchanged tree (the handler was still waiting when the kill arrived): corrected before it was committed |
 | (own mutation `seeded/selfmade/C10-M1.diff`: the completed-check of `Future.PipeTo` hoisted in front of the lock) | C10 named `Future.PipeTo` in its domain but no goroutine called it; the sequential C04 model cannot see a registration lost between the check and the lock | operation 17: `Ask` + `PipeTo` from a second goroutine racing reply / timeout / `Close`, three collector actors outside the pool of victims, oracle "one PipeResult per piped future, no successful result twice" (`C10/pipe-exactly-once`; the mutation is caught in the first quick shard); shared `Ref` objects are also read (`Equals/GetPath/GetAddress/ToActorRefs`) while others send through them |
 | C03-8 | a lost wake-up inside the mailbox (a window of a few instructions between the counter read and the idle store) | caught by C01, whose unit owns the mailbox's schedule (`lost-wakeup`, `seeded/CROSS.tsv`); C03's free-running units hit the window in some runs only (then the case cannot be left: `bubble-deadlock`) |
 
